@@ -261,39 +261,39 @@ class HierDriver(explore.Driver):
                     level=min(L, 2))
             if L == 0 or len(ri) == 0:
                 continue
-            for feat in FEATS + ["frame"]:
-                if not gen.arrays_equal(ds[feat][:], data[feat][ri]):
-                    bad(HB + ".__getitem__", "wrong-feature-data",
-                        f"level {L} {feat}: {np.asarray(ds[feat][:])} != "
-                        f"{data[feat][ri]}", kind="scalar")
-            exp_time = ref_time[ri]
-            try:
-                got_time = ds["time"][:]
-                if not np.allclose(got_time, exp_time, rtol=1e-12, atol=0):
-                    bad(HB + ".__getitem__", "wrong-feature-data",
-                        f"level {L} time: {got_time} != {exp_time} "
-                        f"(fps {st.fps})", kind="computed")
-            except Exception as e:
-                bad(HB + ".__getitem__", "exception",
-                    f"time: {type(e).__name__}: {e}", exc=type(e).__name__)
-            for feat in ("image", "mask"):
-                ok = gen.arrays_equal(ds[feat][:], data[feat][ri]) and all(
-                    gen.arrays_equal(ds[feat][i], data[feat][ri[i]])
-                    for i in range(len(ri)))
+            def probe(kind, fn):
+                """Run one comparison; an exception while reading is a
+                violation of its own."""
+                try:
+                    ok = fn()
+                except Exception as e:
+                    bad(HB + ".__getitem__", "exception",
+                        f"level {L} {kind}: {type(e).__name__}: {e}",
+                        exc=type(e).__name__, kind=kind)
+                    return
                 if not ok:
                     bad(HB + ".__getitem__", "wrong-feature-data",
-                        f"level {L} {feat}", kind=feat)
-            if not all(gen.arrays_equal(ds["contour"][i],
-                                        data["contour"][ri[i]])
-                       for i in range(len(ri))):
-                bad(HB + ".__getitem__", "wrong-feature-data",
-                    f"level {L} contour", kind="contour")
-            tr = ds["trace"]["fl1_raw"]
-            if not (gen.arrays_equal(tr[:], data["trace"]["fl1_raw"][ri])
-                    and gen.arrays_equal(tr[len(ri) - 1],
-                                         data["trace"]["fl1_raw"][ri[-1]])):
-                bad(HB + ".__getitem__", "wrong-feature-data",
-                    f"level {L} trace", kind="trace")
+                        f"level {L} {kind} differs from the root data at "
+                        f"root ids {ri.tolist()}", kind=kind)
+            for feat in FEATS + ["frame"]:
+                probe("scalar", lambda f=feat: gen.arrays_equal(
+                    ds[f][:], data[f][ri]))
+            exp_time = ref_time[ri]
+            probe("computed", lambda: np.allclose(
+                ds["time"][:], exp_time, rtol=1e-12, atol=0))
+            for feat in ("image", "mask"):
+                probe(feat, lambda f=feat: gen.arrays_equal(
+                    ds[f][:], data[f][ri]) and all(
+                    gen.arrays_equal(ds[f][i], data[f][ri[i]])
+                    for i in range(len(ri))) and gen.arrays_equal(
+                    ds[f][-1], data[f][ri[-1]]))
+            probe("contour", lambda: all(
+                gen.arrays_equal(ds["contour"][i], data["contour"][ri[i]])
+                for i in range(len(ri))))
+            probe("trace", lambda: gen.arrays_equal(
+                ds["trace"]["fl1_raw"][:], data["trace"]["fl1_raw"][ri])
+                and gen.arrays_equal(ds["trace"]["fl1_raw"][len(ri) - 1],
+                                     data["trace"]["fl1_raw"][ri[-1]]))
             if st.tmp is not None:
                 try:
                     got = ds[TMP][:]
